@@ -117,6 +117,14 @@ impl Sanitizer {
             // Truncation can expose a trailing separator or a numeric segment with leading zeros
             if let Some(sep) = &self.separator {
                 result = result.trim_end_matches(sep).to_string();
+                // A cut inside a multi-character separator leaves its first characters behind
+                for (idx, _) in sep.char_indices().skip(1).collect::<Vec<_>>().into_iter().rev() {
+                    if result.ends_with(&sep[..idx]) {
+                        result.truncate(result.len() - idx);
+                        result = result.trim_end_matches(sep).to_string();
+                        break;
+                    }
+                }
             }
             if !self.keep_zeros {
                 result = self.remove_leading_zeros(&result);
